@@ -60,14 +60,20 @@ def _strategy(draw):
         # same size with the assets' windows at other places
         grids.append(dict(grids[0], start=str(tl.point(g0, draw(st.integers(1, 3))))))
     nodes = ["n0", "n1"]
-    cx = gen.Cx(g0, nodes, {"p0": [0.0] * T0, "p1": [0.0] * T0})
+    cx = gen.Cx(g0, nodes, {"p0": [0.0] * T0, "p1": [0.0] * T0, "pz": [0.0] * T0})
     assets = []
     n = draw(st.integers(2, 4))
     for i in range(n):
         cls = draw(st.sampled_from(["simple", "simple", "contract", "storage", "transport", "transport", "chp", "plant",
-                                    "scaled", "structured", "orderbook", "multi", "coarse", "coarse"]))
+                                    "scaled", "structured", "orderbook", "multi", "coarse", "coarse", "chp_minload"]))
         a = gen.draw_any(draw, cx, cls, "a%d" % i)
         a["naive"] = True
+        if a["type"] == "chp_minload":
+            # nothing but the start costs can call for on-variables, and these are a column of the price data that is
+            # zero on some grids and positive on others
+            a.update(min_cap=0.0, min_runtime=0, running_costs=0.0, start_costs={"col": "pz"}, nodes=a["nodes"][:2])
+            for k_ in ("fuel_efficiency", "consumption_if_on", "start_fuel", "ramp", "time_already_running", "last_dispatch", "start", "end"):
+                a.pop(k_, None)
         if cls == "coarse":
             a["freq"] = tl.freq_multiple(freq, 2)     # equals the frequency of some grids, coarser than others
             a["start"] = a["end"] = None
@@ -116,6 +122,7 @@ def _strategy(draw):
     prices = []
     for gi in grids:
         prices.append({k: draw(gen.price_series(gi["T"])) for k in cx.prices})
+        prices[-1]["pz"] = [draw(st.sampled_from([0.0, 0.0, 2.0]))] * gi["T"]
     steps = []
     for _ in range(draw(st.integers(3, 12))):
         op = draw(st.sampled_from(["setup_asset", "setup_asset", "setup_portfolio", "setup_portfolio", "setup_split",
